@@ -35,6 +35,7 @@ SRC = os.path.join(REPO, "src")
 COQ = os.environ.get("VERIF_COQ", os.path.join(VERIF, "coq"))  # seedtest.sh points this at a private copy
 WORK = os.environ.get("VERIF_WORK", os.path.join(VERIF, ".work"))
 NPROC = int(os.environ.get("VERIF_JOBS", "8"))
+OUT = os.environ.get("VERIF_OUT", VERIF)  # evidence/ and replays/ go here (seedtest.sh points it elsewhere)
 
 FORBIDDEN = re.compile(
     r"\b(Admitted|admit|Axiom|Axioms|Parameter|Parameters|Conjecture|Conjectures|"
@@ -473,7 +474,7 @@ def safe_impl(spec: Spec, case) -> str:
 
 
 def write_replay(pid: str, payload: dict) -> str:
-    d = os.path.join(VERIF, "replays", pid)
+    d = os.path.join(OUT, "replays", pid)
     os.makedirs(d, exist_ok=True)
     path = os.path.join(d, stable_hash(payload) + ".json")
     with open(path, "w") as f:
@@ -721,7 +722,7 @@ def _model_built(pid: str) -> bool:
 
 def write_evidence(pid: str, tier: str, seed: int, coverage: dict, assumptions: list[str], wall: float,
                    violations: int, level: str = "proof") -> None:
-    os.makedirs(os.path.join(VERIF, "evidence"), exist_ok=True)
+    os.makedirs(os.path.join(OUT, "evidence"), exist_ok=True)
     ev = {
         "property_id": pid,
         "tier": tier,
@@ -732,6 +733,6 @@ def write_evidence(pid: str, tier: str, seed: int, coverage: dict, assumptions: 
         "wall_s": round(wall, 2),
         "violations": violations,
     }
-    with open(os.path.join(VERIF, "evidence", f"{pid}.json"), "w") as f:
+    with open(os.path.join(OUT, "evidence", f"{pid}.json"), "w") as f:
         json.dump(ev, f, indent=1, default=repr)
         f.write("\n")
